@@ -534,6 +534,9 @@ class categorical_ndarray(np.ndarray):
     @categories.setter
     def categories(self, value):
         self._categories = value
+        # codes worked out for the previous categories no longer apply
+        if hasattr(self, '_codes'):
+            del self._codes
 
     @property
     def codes(self):
